@@ -754,6 +754,10 @@ class AbstractExcelInPython(ABC):
         if area_number > len(matrix_list):
             return '#REF!'
 
+        # a negative index must not wrap around to the end of the area
+        if (row_number is not None and row_number < 0) or (column_number is not None and column_number < 0):
+            return '#REF!'
+
         # Если пришел кортеж, значит имеем дело с несколькими диапазонами, берем заданный в area_number, по умолчанию 1
         array = matrix_list[area_number - 1] if isinstance(matrix_list, tuple) else matrix_list
 
